@@ -14,10 +14,11 @@ mkdir -p $M/vdir
 if [ ! -d $M/repo ]; then
     git -C /repo worktree add --detach $M/repo HEAD >/dev/null 2>&1 || exit 2
 fi
+git -C $M/repo reset -q --hard 2>/dev/null   # a failed --3way attempt leaves an unmerged index behind
 git -C $M/repo checkout -q --detach "$(git -C /repo rev-parse HEAD)" || exit 2
-git -C $M/repo checkout -q -- . ; git -C $M/repo clean -fdq
+git -C $M/repo reset -q --hard ; git -C $M/repo clean -fdq
 if [ "$PATCH" != "-" ]; then
-    git -C $M/repo apply "$PATCH" 2>/dev/null || git -C $M/repo apply -C1 "$PATCH" 2>/dev/null || git -C $M/repo apply --3way "$PATCH" 2>/dev/null || { echo "patch does not apply"; exit 2; }
+    git -C $M/repo apply "$PATCH" 2>/dev/null || git -C $M/repo apply -C1 "$PATCH" 2>/dev/null || git -C $M/repo apply --3way "$PATCH" 2>/dev/null || { echo "patch does not apply"; git -C $M/repo reset -q --hard; exit 2; }
 fi
 rsync -a --delete --exclude target /verif/harness/ $M/harness/
 sed -i "s#/repo/crates/#$M/repo/crates/#g" $M/harness/Cargo.toml
@@ -34,5 +35,5 @@ for id in "$@"; do
     r=${PIPESTATUS[0]}
     [ $r -ne 0 ] && rc=$r
 done
-git -C $M/repo checkout -q -- . ; git -C $M/repo clean -fdq
+git -C $M/repo reset -q --hard ; git -C $M/repo clean -fdq
 exit $rc
